@@ -36,11 +36,89 @@ def opMemo (j : Json) : R Json := do
     (({ props, cache := none } : HashedMemo), [])
   pure (Json.mkObj [("outs", Json.arr outs.toArray)])
 
+def strategy (s : String) : R Strategy :=
+  match s with
+  | "match" => pure .match_ | "any" => pure .any | "add" => pure .add | "replace" => pure .replace
+  | "set" => pure .set | "min" => pure .min | "max" => pure .max
+  | x => throw s!"unknown strategy {x}"
+
+def propSpec (j : Json) : R PropSpec := do
+  pure { name := ← fldStr j "name", merge := ← strategy (← fldStr j "merge"), numeric := ← fldBool j "numeric" }
+
+/-- canonical logical view of an event: non-empty properties, everything sorted -/
+def viewJson (e : Event) : Json :=
+  let names := canonS (e.props.map (·.1))
+  let props := names.filterMap fun n =>
+    let o := e.objects n
+    if o.isEmpty then none else some (jPair n (jStrs o))
+  Json.mkObj [("type", e.type), ("source", e.source), ("props", Json.arr props.toArray),
+    ("parents", jStrs (canonS e.parents)),
+    ("atts", Json.arr (e.atts.map fun a =>
+        jPair a.1 (Json.arr (a.2.map fun iv => jPair iv.1 iv.2).toArray)).toArray),
+    ("foreign", Json.arr (e.foreign.map fun kv => jPair kv.1 kv.2).toArray)]
+
+def mergeErrJson : MergeErr → Json
+  | .conflict => Json.mkObj [("err", "EDXMLMergeConflictError")]
+  | .empty => Json.mkObj [("err", "empty")]
+
+def opMerge (j : Json) : R Json := do
+  let specs ← (← fldArr j "specs").mapM propSpec
+  let vp ← match fldOpt j "vp" with
+    | some v => pure (some (← str v))
+    | none => pure none
+  let es ← (← fldArr j "events").mapM event
+  -- events carrying properties the event type does not declare are outside the model
+  if es.any (fun e => e.props.any fun pv => !(specs.any (·.name == pv.1))) then throw "undeclared property"
+  let many (r : Except MergeErr (List Event)) : Json := match r with
+    | .ok l => Json.mkObj [("ok", Json.arr (l.map viewJson).toArray)]
+    | .error e => mergeErrJson e
+  let resolveAfter := match fldOpt j "resolve_after" with | some (Json.bool true) => true | _ => false
+  let many (r : Except MergeErr (List Event)) : Json :=
+    if resolveAfter then many (r.bind (resolve specs vp)) else many r
+  match ← fldStr j "how" with
+  | "merge" => pure (match mergeEvents specs vp es with
+      | .ok e => Json.mkObj [("ok", viewJson e)]
+      | .error e => mergeErrJson e)
+  | "resolve" => pure (many (resolve specs vp es))
+  | "fold" => pure (many (foldMerger specs vp es))
+  | "buffer" => pure (many (bufferMerger specs vp (← fldNat j "k") es))
+  | x => throw s!"unknown merge mode {x}"
+
+/-- evaluate a merge tree: a leaf is an index into the events, a node merges its children -/
+partial def evalTree (specs : List PropSpec) (vp : Option String) (es : Array Event) (t : Json) :
+    R (Except MergeErr Event) := do
+  match t with
+  | Json.arr kids =>
+    let mut acc : List Event := []
+    for k in kids do
+      match ← evalTree specs vp es k with
+      | .ok e => acc := acc ++ [e]
+      | .error e => return .error e
+    pure (mergeEvents specs vp acc)
+  | _ =>
+    let i ← t.getNat?
+    match es[i]? with
+    | some e => pure (.ok e)
+    | none => throw "index out of range"
+
+def opMergeTree (j : Json) : R Json := do
+  let specs ← (← fldArr j "specs").mapM propSpec
+  let vp ← match fldOpt j "vp" with
+    | some v => pure (some (← str v))
+    | none => pure none
+  let es ← (← fldArr j "events").mapM event
+  if es.any (fun e => e.props.any fun pv => !(specs.any (·.name == pv.1))) then throw "undeclared property"
+  match ← evalTree specs vp es.toArray (← fld j "tree") with
+  | .ok e => pure (Json.mkObj [("ok", viewJson e)])
+  | .error e => pure (mergeErrJson e)
+
 def dispatch (j : Json) : R Json := do
   match ← fldStr j "op" with
   | "ping" => pure (Json.mkObj [("pong", true)])
   | "hash" => opHash j
   | "memo" => opMemo j
+  | "merge" => opMerge j
+  | "mergetree" => opMergeTree j
   | x => throw s!"unknown op {x}"
 
 partial def loop (inp out : IO.FS.Stream) : IO Unit := do
